@@ -95,7 +95,7 @@ def random_tree(rnd, f, size, shape="mixed", nsrich=False, parent=0, top_doc=Non
             f.add(node("comm", t=cps(rnd.choice(["k", "x", ""]))), par)
         else:
             has = rnd.random() < 0.5
-            f.add(node("pi", ln=rnd.choice(LNS), t=cps("d") if has else [], d=has), par)
+            f.add(node("pi", ln=rnd.choice(LNS + ["xml-stylesheet", "xmlx", "XmL1"]), t=cps("d") if has else [], d=has), par)
         count += 1
     return root
 
@@ -239,3 +239,23 @@ def random_forest(rnd, size, shape="mixed", nsrich=False, trees=1, cons=True):
     f = Forest(cons)
     roots = [random_tree(rnd, f, max(1, size // trees), shape, nsrich) for _ in range(trees)]
     return f, roots
+
+
+def sandwich_forest(rnd):
+    """a parent whose children alternate text / non-text (no two text nodes adjacent), where a text node may be EMPTY
+    (an explicitly created empty text node is a node like any other), plus a detached node to move in"""
+    f = Forest(True)
+    root = f.add(node("doc")) if rnd.random() < 0.3 else f.add(node("elem", ln="a"))
+    n = rnd.choice([3, 3, 4, 5])
+    text_turn = rnd.random() < 0.6
+    for _ in range(n):
+        if text_turn:
+            f.add(node("text", t=cps(rnd.choice(["", "", "x", " ", "xy"]))), root)
+        else:
+            k = rnd.choice(["elem", "elem", "comm", "pi"])
+            f.add(node(k, ln="b" if k != "comm" else "", t=cps("c") if k == "comm" else []), root)
+        text_turn = not text_turn
+    if rnd.random() < 0.7:
+        k = rnd.choice(["text", "elem", "comm"])
+        f.add(node(k, ln="c" if k == "elem" else "", t=cps(rnd.choice(["", "z"])) if k != "elem" else []))
+    return f
